@@ -356,6 +356,51 @@ class WsgiCapture:
         return [b"{}"]
 
 
+class AsgiCapture:
+    """Bare ASGI application that records the raw scope of the last request."""
+
+    def __init__(self):
+        self.last = None
+
+    async def __call__(self, scope, receive, send):
+        if scope["type"] == "lifespan":
+            while True:
+                message = await receive()
+                if message["type"] == "lifespan.startup":
+                    await send({"type": "lifespan.startup.complete"})
+                elif message["type"] == "lifespan.shutdown":
+                    await send({"type": "lifespan.shutdown.complete"})
+                    return
+        if scope["type"] != "http":
+            return
+        body = b""
+        while True:
+            message = await receive()
+            body += message.get("body", b"")
+            if not message.get("more_body"):
+                break
+        headers = {}
+        content_type = None
+        for k, v in scope["headers"]:
+            name = k.decode("latin-1").lower()
+            if name == "content-type":
+                content_type = v.decode("latin-1")
+            else:
+                headers[name] = v.decode("latin-1")
+        raw_path = scope.get("raw_path")
+        self.last = {
+            "method": scope["method"],
+            "path": scope["path"],
+            "raw_uri": raw_path.decode("latin-1") if raw_path is not None else None,
+            "query": scope["query_string"].decode("latin-1"),
+            "headers": headers,
+            "content_type": content_type,
+            "body": body,
+        }
+        await send({"type": "http.response.start", "status": 200, "headers": [(b"content-type", b"application/json"), (b"content-length", b"2")]})
+        await send({"type": "http.response.body", "body": b"{}"})
+
+
 def run_shard(spec, emit):
     import hypothesis
     from hypothesis import HealthCheck, Phase, given, settings
@@ -557,7 +602,8 @@ def wsgi_part(rng, emit, capture, tier):
     for key, version, param, kind in rng.sample(matrix, 8 if tier == "quick" else 40):
         body_kind = rng.choice(["json", "form", "multipart", "text"])
         doc, template, method = make_doc(version, param, body_kind, "")
-        app = WsgiCapture()
+        flavour = rng.choice(["wsgi", "asgi"])
+        app = WsgiCapture() if flavour == "wsgi" else AsgiCapture()
         try:
             schema = schemathesis.openapi.from_dict(doc).configure(app=app, location="/openapi.json")
             operation = schema[template][method.upper()]
@@ -596,14 +642,15 @@ def wsgi_part(rng, emit, capture, tier):
             if env["raw_uri"] is None and param["in"] == "path":
                 continue  # PATH_INFO is already decoded by the WSGI server: the raw segment is not observable
             emit.count("wsgi_requests_compared")
-            context = {"operation": key, "transport": "wsgi", "raw": {k: v[1] for k, v in raw.items()}, "wire": record}
+            emit.count(f"app_transport:{flavour}")
+            context = {"operation": key, "transport": flavour, "raw": {k: v[1] for k, v in raw.items()}, "wire": record}
             viols = judge(param, kind, key, template, "", raw, case, record, body_kind, NOT_SET)
             emit.count(f"wsgi_body:{body_kind}")
             emit.case(sig=f"wsgi|{key}|{body_kind}|{record['raw_path']}")
             for k, what in viols:
                 if "unexpected-header" in k:
                     continue
-                emit.viol(k if k in ("C06/matrix-non-exploded-value-lacks-parameter-name", "C06/query-object-without-explode-loses-values") else k + ":wsgi", what, context)
+                emit.viol(k if k in ("C06/matrix-non-exploded-value-lacks-parameter-name", "C06/query-object-without-explode-loses-values") else k + ":" + flavour, what, context)
 
 
 def replay(case):
